@@ -237,7 +237,9 @@ class FutureImplBase : private FutureImplResultMember<Result> {
 
     ThenChain* scheduleDestroyAndGetNext() {
       invoke(impl, schedulable);
-      constexpr size_t kImplSize = static_cast<size_t>(nextPow2(sizeof(this)));
+      // sizeof(*this), not sizeof(this): the link was allocated with nextPow2(sizeof(ThenChain)); the size
+      // of a pointer selects a smaller small-buffer class and the block went back to the wrong pool.
+      constexpr size_t kImplSize = static_cast<size_t>(nextPow2(sizeof(ThenChain)));
       auto* ret = this->next;
       deallocSmallBuffer<kImplSize>(this);
       return ret;
